@@ -150,6 +150,8 @@ Proof.
     apply in_app_or in Hy. destruct Hy as [Hy | Hy]; [right; exact Hy | left; apply Hin; eapply skipn_In; eauto].
   - (* list ExtendSelf *) repeat split; auto using incl_appl, incl_refl.
     intros y Hy. apply in_or_app. apply in_app_or in Hy. destruct Hy as [Hy | Hy]; auto.
+  - (* list IAugAlias *) repeat split; auto using incl_appl, incl_refl.
+    intros y Hy. apply in_app_or in Hy. apply in_or_app. destruct Hy as [Hy | Hy]; auto.
   - (* set Assign *) repeat split; auto using incl_appl, incl_refl.
     + apply set_union_NoDup. constructor.
     + intros y Hy. apply set_union_In in Hy. destruct Hy as [[] | Hy]. apply in_or_app. auto.
@@ -165,6 +167,9 @@ Proof.
   - (* set AssignView *) repeat split; auto using incl_appl, incl_refl.
     + apply set_union_NoDup. constructor.
     + intros y Hy. apply set_union_In in Hy. destruct Hy as [[] | Hy]. apply in_or_app. auto.
+  - (* set IAugAlias *) repeat split; auto using incl_appl, incl_refl.
+    + now apply set_union_NoDup.
+    + intros y Hy. apply set_union_In in Hy. apply in_or_app. destruct Hy as [Hy | Hy]; auto.
 Qed.
 
 (* C16: for every history of write operations, from any contents whose elements are recorded, the trace of
@@ -262,10 +267,9 @@ Proof.
   - apply incl_appr, incl_refl.
 Qed.
 
-(* lst = x.f; lst += vs  (the in-place operator reaches the container through another reference): only the builtin runs, no __set__
-   follows: the new elements are in the field and nothing is recorded (known finding C16-n) *)
-Theorem refuted_alias_inplace : exists k s vs x, wf k (items s) /\ incl (items s) (rec s) /\
-  In x (items (builtin_iaug k vs s)) /\ ~ In x (rec (builtin_iaug k vs s)).
-Proof.
-  exists KList, (init KList []), [1], 1. split; [exact I|]. split; [intros y []|]. simpl. split; [now left | intros []].
-Qed.
+(* regression (before 5f0198c): lst = x.f; lst += vs reached only the builtin, no __set__ followed: the new elements were in the field
+   and nothing was recorded; now the operator records them *)
+Lemma old_alias_inplace_unrecorded :
+  (let s := builtin_iaug KList [1] (init KList []) in In 1 (items s) /\ ~ In 1 (rec s))
+  /\ (let s := fst (step KList (IAugAlias [1]) (init KList [])) in In 1 (items s) /\ In 1 (rec s)).
+Proof. simpl. split; split; auto. Qed.
